@@ -77,6 +77,10 @@ structure Order where
   rollappId : Bytes
   ptype : PType
   creationHeight : Nat
+  -- ghost (not in the store): the transfer amount and the kind of packet (received: bridging fee applies)
+  -- the price was last computed from
+  amount : Int
+  withBf : Bool
   deriving DecidableEq, Repr, Inhabited
 
 /-- `OnDemandLPRecord` -/
@@ -322,7 +326,8 @@ def logRelease (s : St) (p : Packet) (ra : Option Bytes) (viaFin : Bool) : St :=
 
 def newOrder (s : St) (p : Packet) (price fee : Int) (recipient : Addr) : Order :=
   { id := pkey p, trackingKey := pkey p, status := .pending, price := price, fee := fee, denom := p.denom,
-    recipient := recipient, fulfiller := none, rollappId := p.rollappId, ptype := p.ptype, creationHeight := s.h }
+    recipient := recipient, fulfiller := none, rollappId := p.rollappId, ptype := p.ptype, creationHeight := s.h,
+    amount := p.amount, withBf := p.ptype == .onRecv }
 
 /-- `CreateDemandOrderOnRecv` (memo → fee) -/
 def memoFee : Memo → M Int
@@ -628,7 +633,7 @@ def msgUpdateFee (s : St) (sender : Addr) (id : Bytes) (newFee : Int) : M St :=
     | some p =>
       match calcPrice p.amount newFee (if p.ptype == .onRecv then s.bridgingFee else Dec.zero) with
       | .error e => .error e
-      | .ok price => .ok (setOrder s { o with fee := newFee, price := price })
+      | .ok price => .ok (setOrder s { o with fee := newFee, price := price, amount := p.amount, withBf := p.ptype == .onRecv })
 
 -- ---------------------------------------------------------------- on-demand LPs (x/eibc/keeper/lps.go, types/lp.go)
 
